@@ -23,7 +23,7 @@ def creatorOf : String → Creator
   | "admincert" => .cert "ski-admincert" "hash-admincert" ["admin"]
   | "client" => .cert "ski-client" "hash-client" ["client"]
   | "none" => .none
-  | _ => .garbage
+  | x => if x.startsWith "ou:" then .cert ("ski-" ++ x) ("hash-" ++ x) ((x.drop 3).toString.splitOn "+") else .garbage
 
 def refName : Refusal → String
   | .noconfig => "noconfig" | .creator => "creator" | .unauthorized => "unauthorized"
